@@ -411,7 +411,32 @@ pub fn run(ctx: &Ctx) -> (Stats, Report) {
         });
         st.merge(s);
     }
-    st.exhaustive_sections.push("year-month arithmetic vs timestamp: all dates x 6 offsets, ascending and descending walks with operation and offset held fixed".into());
+    // C2b: offsets derived from the date itself: the exact month distance to the first and to the
+    // last supported month (and one month short of / beyond it), added and - negated - subtracted
+    {
+        let s = par_sweep(c.len() as u64, 1 << 12, |range, st| {
+            for i in range {
+                let r = &c.rows[i as usize];
+                let x = r.n as i128 * US_PER_DAY + [0i128, 30_600, 43_200, 86_399][(i % 4) as usize] * US_PER_SEC;
+                let to_first = -(12 * (r.y as i64 - 1) + (r.m as i64 - 1));
+                let to_last = 12 * (9999 - r.y as i64) + (12 - r.m as i64);
+                for k in [to_first - 1, to_first, to_first + 1, to_last - 1, to_last, to_last + 1] {
+                    for sub in [false, true] {
+                        let kk = if sub { -k } else { k } as i32;
+                        st.evaluations += 1;
+                        st.nontrivial_enum += 1;
+                        st.class("month-offset-reaching-the-first-or-last-supported-month");
+                        if let Err(m) = check_ym_vs_timestamp(x, kk, sub) {
+                            st.fail(i, Case::new(P, "ym_vs_ts", vec![x, kk as i128, sub as i128], vec![]), m);
+                            return;
+                        }
+                    }
+                }
+            }
+        });
+        st.merge(s);
+    }
+    st.exhaustive_sections.push("year-month arithmetic vs timestamp: all dates x 6 offsets, ascending and descending walks with operation and offset held fixed; all dates x the month distances to the first / last supported month -1, 0, +1".into());
     st.section("interval_arithmetic_floored", &mut mark);
 
     // D: fractional days
@@ -494,7 +519,7 @@ pub fn run(ctx: &Ctx) -> (Stats, Report) {
     st.section("differences", &mut mark);
 
     let rep = Report {
-        rule: "Conversions: all dates x 4 seconds of the day x sub-second parts {0,1,499999,500000,999999} through From<Timestamp> and new (floor via i128 div_euclid, also before 1970); every such instant also injected as the current local instant (feature verif-hooks) for OracleDate::now() and OracleDate::try_from(Time) with that and a second, seeded sub-second time of day. Every operation of the operation table that takes or returns an Oracle-style date (constructors, conversions, interval / day arithmetic, last_day_of_month, 12 trunc + 12 round) on boundary+seeded pool cross products: each returned Oracle-style date must be a whole second inside 0001-01-01 00:00:00..9999-12-31 23:59:59. add/sub_interval_dt = the exact timestamp result floored to the second; add/sub_interval_ym = the timestamp result (value or error) on walks over all dates with operation and offset held fixed. add_days/sub_days/oracle_add_days/oracle_sub_days with classed doubles, k+1/2 second +-{0,1,10,100} us offsets, exactly representable near-tie offsets and proptest-generated pairs: the result must be a whole second within half a second of an admissible exact instant (ties either way). sub_date on pool pairs = seconds/86400 correctly rounded. Non-trivial = sub-second input, fractional-second offset, non-whole-second interval, non-whole-day difference, error outcome.".into(),
+        rule: "Conversions: all dates x 4 seconds of the day x sub-second parts {0,1,499999,500000,999999} through From<Timestamp> and new (floor via i128 div_euclid, also before 1970); every such instant also injected as the current local instant (feature verif-hooks) for OracleDate::now() and OracleDate::try_from(Time) with that and a second, seeded sub-second time of day. Every operation of the operation table that takes or returns an Oracle-style date (constructors, conversions, interval / day arithmetic, last_day_of_month, 12 trunc + 12 round) on boundary+seeded pool cross products: each returned Oracle-style date must be a whole second inside 0001-01-01 00:00:00..9999-12-31 23:59:59. add/sub_interval_dt = the exact timestamp result floored to the second; add/sub_interval_ym = the timestamp result (value or error) on walks over all dates with operation and offset held fixed, and on all dates with the month distance to the first / last supported month -1, 0, +1. add_days/sub_days/oracle_add_days/oracle_sub_days with classed doubles, k+1/2 second +-{0,1,10,100} us offsets, exactly representable near-tie offsets and proptest-generated pairs: the result must be a whole second within half a second of an admissible exact instant (ties either way). sub_date on pool pairs = seconds/86400 correctly rounded. Non-trivial = sub-second input, fractional-second offset, non-whole-second interval, non-whole-day difference, error outcome.".into(),
         assumptions: vec![
             "add_days may fail when the exact (unrounded) instant lies outside the timestamp range even if its nearest second is the range minimum".into(),
             "month arithmetic of the Oracle-style date is decided in C09, truncation/rounding values in C10/C11/C17; here only the whole-second and range invariants of their results".into(),
